@@ -474,6 +474,41 @@ def real_raw_layers_through_two_refreshes(rounds):
                     (["ug_bv", "ug_pr"] if name == "bv" else ["ug_pr"]))
 
 
+@harness(props=["C09", "C10"], strength="E",
+         family=lambda t, s: [{"docref": d, "excluded": n} for d in (False, True) for n in (0, 1, 2)],
+         functions=[ParentRef.from_et, ParentRef._resolve_odxlinks], covers=["bound"], crosscheck=False)
+def parent_refs_from_xml_bind_the_named_layer(docref, excluded):
+    """a PARENT-REF read from XML names its parent layer: with DOCREF the layer carrying the id in exactly that
+    document (even if the referring document holds an object with the same local id), without DOCREF the one of the
+    referring document; the NOT-INHERITED lists hold the names written in the element, in document order"""
+    from xml.etree import ElementTree
+    own = [OdxDocFragment("own_container", DocType.CONTAINER), OdxDocFragment("child", DocType.LAYER)]
+    here = _named(DiagService, "object_of_the_referring_document")
+    there = _named(DiagService, "object_of_the_named_document")
+    db = OdxLinkDatabase()
+    db.update({OdxLinkId("L", [own[0], OdxDocFragment("sibling", DocType.LAYER)]): here})
+    db.update({OdxLinkId("L", [OdxDocFragment("other_container", DocType.CONTAINER),
+                               OdxDocFragment("parent", DocType.LAYER)]): there})
+    names = ["svc_a", "svc_b"][:excluded]
+    xml = '<PARENT-REF ID-REF="L"' + (' DOCREF="other_container" DOCTYPE="CONTAINER"' if docref else '') + '>'
+    if names:
+        xml += "<NOT-INHERITED-DIAG-COMMS>" + "".join(
+            [f'<NOT-INHERITED-DIAG-COMM><DIAG-COMM-SNREF SHORT-NAME="{n}"/></NOT-INHERITED-DIAG-COMM>' for n in names]
+        ) + "</NOT-INHERITED-DIAG-COMMS>"
+        xml += '<NOT-INHERITED-TABLES><NOT-INHERITED-TABLE><TABLE-SNREF SHORT-NAME="tab"/></NOT-INHERITED-TABLE>' \
+               '</NOT-INHERITED-TABLES>'
+    xml += "</PARENT-REF>"
+    pr = ParentRef.from_et(ElementTree.fromstring(xml), own)
+    H.check("C09:not-inherited-lists-hold-the-names-written-in-the-element",
+            H.And(pr.not_inherited_diag_comms == names, pr.not_inherited_tables == (["tab"] if names else []),
+                  pr.not_inherited_dops == [], pr.not_inherited_variables == [],
+                  pr.not_inherited_global_neg_responses == []))
+    pr._resolve_odxlinks(db)
+    H.cover("bound")
+    H.check("C09,C10:parent-is-the-layer-with-that-id-in-the-named-document-else-in-the-referring-one",
+            pr.layer is (there if docref else here))
+
+
 # =============================================================================================================== C15
 import warnings  # noqa: E402
 
